@@ -92,4 +92,4 @@ package dnsutils
 //@   modifies nothing
 //@   ensures err == nil ==> m != nil && fresh(m) && wfMsg(m) && freshElems(m)
 //@   ensures err != nil ==> m == nil
-//@   callsite UnpackMsg: [C01:decodes-what-was-read] len(arg0) == gn
+//@   callsite UnpackMsg: [C01,C03,C05:decodes-what-was-read] len(arg0) == gn
